@@ -2,6 +2,7 @@ package main
 
 import (
 	"fmt"
+	"go/constant"
 	"go/token"
 	"go/types"
 	"sort"
@@ -59,6 +60,8 @@ var withToSet = map[string][]string{
 
 func checkC10(c *Ctx) {
 	r := c.R
+	r.Rule("R10.9", "anonymous children are distinct: newChildLogger uses the caller's name as the registry key only on the edge where the argument was asserted to be a string AND tested non-empty; every other child gets a fresh random name")
+	r.Rule("R10.10", "an option configures the logger it is given: in the closure of every package-level Opt constructor the configuring call is a method on the closure's own parameter, never the package-level namesake (which configures the default logger)")
 	r.Rule("R10.1", "isolation as a frame condition: every store to a field of Entry (plain store, map update, element store, field address handed to a callee) goes through the method's receiver, an Entry allocated in the same function, or the parameter of an option closure; every in-package call of a mutator method is made on the caller's own receiver, on the child just returned by newChildLogger, on a fresh logger or on an allow-listed operand; attrs/contextKeys are only assigned append(own field, ...) or a fresh slice, and writer only a fresh dualWriter")
 	r.Rule("R10.2", "With vs Set: each WithX obtains a child from the receiver's newChildLogger, applies the namesake setter to that child with its own arguments and returns the child, storing nothing through the receiver; each SetX stores only to its own fields and returns the receiver on every path")
 	r.Rule("R10.3", "inheritance at creation: newentry stores useJSON/useColor/level as (detached default | the parent's value) selected by parent != nil, the defaults being false/true/GetLevel(); owner is the parent parameter; nothing else is read from the parent")
@@ -84,6 +87,8 @@ func checkC10(c *Ctx) {
 		c10Frames(c, p, m)
 		c10WithSet(c, p, m)
 		c10Creation(c, p, m)
+		childNameDecision(c, p, "R10.9")
+		optionsOnOwnLogger(c, p, "R10.10")
 		c10Navigation(c, p, m)
 		freshChildren(c, p, m, "R10.4", nil)
 		optionsInOrder(c, p, "R10.3")
@@ -998,4 +1003,163 @@ func sameFieldOnly(fa *ssa.FieldAddr, field string) bool {
 		return true
 	}
 	return ok(fa)
+}
+
+// childNameDecision: newChildLogger registers a child under the caller's own name only when that name is a non-empty
+// string; every other child is anonymous (a fresh random name). Followed from the key of the registry lookup back
+// through the joins: wherever the asserted string (which is "" when the assertion failed) can flow into the key, the
+// way there has tested it non-empty.
+func childNameDecision(c *Ctx, p *Prog, rule string) {
+	r := c.R
+	fn := p.Method(p.Slog, "Entry", "newChildLogger")
+	if fn == nil {
+		r.Unk(rule, "child-name", "-", "newChildLogger not found")
+		return
+	}
+	nonEmpty := func(v ssa.Value, fs []condFact) bool {
+		for _, f := range fs {
+			bo, isB := f.cond.(*ssa.BinOp)
+			if !isB {
+				continue
+			}
+			if k, isC := bo.Y.(*ssa.Const); isC && bo.X == v && k.Value != nil && k.Value.Kind() == constant.String && constant.StringVal(k.Value) == "" {
+				if (bo.Op == token.EQL && !f.taken) || (bo.Op == token.NEQ && f.taken) {
+					return true
+				}
+			}
+			if lc, isL := bo.X.(*ssa.Call); isL && isBuiltinCall(lc, "len") && lc.Common().Args[0] == v {
+				if z, isC := constInt(bo.Y); isC && z == 0 && ((bo.Op == token.GTR && f.taken) || (bo.Op == token.NEQ && f.taken) || (bo.Op == token.EQL && !f.taken)) {
+					return true
+				}
+			}
+		}
+		return false
+	}
+	var bad []string
+	seen := map[ssa.Value]bool{}
+	nAsserted := 0
+	var check func(v ssa.Value, fs []condFact, depth int)
+	check = func(v ssa.Value, fs []condFact, depth int) {
+		if depth > 6 {
+			return
+		}
+		switch x := v.(type) {
+		case *ssa.Extract:
+			if ta, ok := x.Tuple.(*ssa.TypeAssert); ok && ta.CommaOk && x.Index == 0 {
+				nAsserted++
+				if !nonEmpty(v, fs) {
+					bad = append(bad, p.Pos(instrPos(ta)))
+				}
+			}
+		case *ssa.Phi:
+			if nonEmpty(v, fs) {
+				return
+			}
+			if seen[v] {
+				return
+			}
+			seen[v] = true
+			for i, e := range x.Edges {
+				for _, alt := range factsOfEdge(x.Block().Preds[i], x.Block()) {
+					check(e, alt, depth+1)
+				}
+			}
+		}
+	}
+	for _, b := range fn.Blocks {
+		for _, in := range b.Instrs {
+			if ta, ok := in.(*ssa.TypeAssert); ok && isStringT(ta.AssertedType) {
+				nAsserted++
+			}
+		}
+	}
+	n := 0
+	for _, b := range fn.Blocks {
+		for _, in := range b.Instrs {
+			var key ssa.Value
+			switch x := in.(type) {
+			case *ssa.Lookup:
+				if isStringT(x.Index.Type()) && typeName(x.X.Type()) == "" {
+					key = x.Index
+				}
+			case *ssa.MapUpdate:
+				if isStringT(x.Key.Type()) {
+					key = x.Key
+				}
+			}
+			if key == nil {
+				continue
+			}
+			n++
+			var fs []condFact
+			for _, g := range guardsOf(b) {
+				cond, neg := normCond(g.If.Cond)
+				fs = append(fs, condFact{cond, (g.Succ == 0) != neg})
+			}
+			seen = map[ssa.Value]bool{}
+			check(key, fs, 0)
+		}
+	}
+	if n == 0 || nAsserted == 0 {
+		r.Unk(rule, "child-name", p.FuncPos(fn), "no registry key derived from the argument list found (%d key uses, %d asserted names)", n, nAsserted)
+		return
+	}
+	bad = dedupStr(bad)
+	sort.Strings(bad)
+	r.Check(len(bad) == 0, rule, "child-name:"+shortName(fn), p.FuncPos(fn), "the caller's name is the registry key only when it is a non-empty string",
+		"the caller's name (asserted at "+strings.Join(bad, ", ")+") can become the registry key without having been tested non-empty: children created with an empty name share one registry slot, so the second New(\"\") returns the first child and its options are ignored")
+}
+
+// optionsOnOwnLogger: an Opt configures the logger it is applied to. In the closure of every package-level option
+// constructor (a function returning Opt) the configuring call is a method call on the closure's own parameter; a
+// call of a package-level function that has a namesake method on the logger (SetLevel, SetFlags ...) configures the
+// default logger / the process instead.
+func optionsOnOwnLogger(c *Ctx, p *Prog, rule string) {
+	r := c.R
+	entry := p.NamedType(p.Slog, "Entry")
+	if entry == nil {
+		r.Unk(rule, "opt-own", "-", "Entry not found")
+		return
+	}
+	n := 0
+	for _, fn := range p.RepoFuncs() {
+		if fn.Pkg != p.Slog || fn.Signature.Recv() != nil || fn.Parent() != nil || fn.Signature.Results().Len() != 1 {
+			continue
+		}
+		if typeName(fn.Signature.Results().At(0).Type()) != "Opt" {
+			continue
+		}
+		for _, an := range fn.AnonFuncs {
+			if len(an.Params) != 1 || typeName(an.Params[0].Type()) != "Entry" {
+				continue
+			}
+			n++
+			onOwn := 0
+			var foreign []string
+			for _, cs := range callsIn(an) {
+				cal := calleeOf(cs)
+				if cal == nil || cal.Pkg != p.Slog {
+					continue
+				}
+				if cal.Signature.Recv() != nil {
+					if len(cs.Common().Args) > 0 && strip(cs.Common().Args[0]) == ssa.Value(an.Params[0]) {
+						onOwn++
+					}
+					continue
+				}
+				if p.Method(p.Slog, "Entry", cal.Name()) != nil {
+					foreign = append(foreign, cal.Name()+" at "+p.Pos(instrPos(cs)))
+				}
+			}
+			if len(fieldStores(an)) > 0 {
+				onOwn++
+			}
+			key := "opt-own:" + shortName(fn)
+			r.Check(len(foreign) == 0 && onOwn > 0, rule, key, p.FuncPos(fn), "the option configures the logger it is applied to",
+				fmt.Sprintf("the option's closure calls the package-level %s instead of the method of the logger under construction: the new logger is left unconfigured and the default logger / process-wide setting is changed", strings.Join(foreign, ", ")))
+		}
+	}
+	if n < 5 {
+		r.Unk(rule, "opt-own", "-", "only %d option constructors found", n)
+	}
 }
